@@ -29,6 +29,7 @@ RULE += ("; added after the mutation rounds: file names with blanks / non-ASCII 
 RULE += ("; round 7: residue lines that begin with record keywords of other formats (SQ, ID, AC, SEQRES, ...); files of 70,000 (thorough 300,000) residues as one line and wrapped")
 RULE += ("; round 8: rewrites that keep the file's time stamps (a third of the histories)")
 RULE += ("; round 9: decimal digits of other scripts; header lines of 1-9 kB")
+RULE += ("; round 10: headers as PIR / UniProt / NCBI / PDB write them (also with '*', ';', '//'); whole foreign lines ('//', 'END', 'ORIGIN', ...) between or after the residue lines")
 EXHAUSTIVE = {"quick": False, "thorough": False}
 ASSUMPTIONS = [
     "line breaks are LF, CRLF or CR; a header is a line whose first character is '>'",
